@@ -59,6 +59,17 @@ Theorem extend_records_selection : forall C (n : @node C) cid cands tries o a0,
 Proof. exact (@sext_sends). Qed.
 Print Assumptions extend_records_selection.
 
+(* The peer an extend selects is ONE peer: the key it names and the address it carries (when it carries one)
+   are key and address of the same peer - the circuit's required exit, or the exit that random.choice picked
+   when the hop offered no usable candidate. *)
+Theorem send_extend_names_one_peer : forall C (n : @node C) cid cands tries o fa k i t X addr,
+  In (Send fa (MExtend k i t X addr)) (acts (send_extend n cid cands tries o)) ->
+  addr = 0 \/
+  exists p, t = p_key p /\ addr = p_addr p
+    /\ (o_fallback o = Some p \/ exists c, aget cid (n_circ n) = Some c /\ c_reqexit c = Some p).
+Proof. exact (@sext_one_peer). Qed.
+Print Assumptions send_extend_names_one_peer.
+
 (* ---- what it takes to be accepted ------------------------------------------------------------------ *)
 
 (* Whatever message a node handles, in whatever state: if the hop list of circuit cid differs afterwards, the
@@ -310,3 +321,10 @@ Example relabelled_earlier_answer_rejected :
   /\ handle tO2 11 relabelled_extended (orc 0 0 [] 0 0) = (tO2, [], Some CryptoError)
   /\ hops_of tO2 7 = Some [mkHop (C := Toy) (mkPeer 1 11) (Some (TKdf (TDH 100 101) (TDH 1 100))) (Some 100)].
 Proof. vm_compute. auto. Qed.
+
+(* the fallback branch of send_extend (the hop offered no candidate; the originator picks exit 2 at address 12
+   itself): key and address of that one peer travel together *)
+Example fallback_extend_names_one_peer :
+  acts (send_extend tO2 7 [] 3 (mkOracle 105 502 (Some (mkPeer 2 12)) [] 0 0 None))
+  = [Send 11 (@MExtend Toy 7 502 2 (TPub 105) 12)].
+Proof. vm_compute. reflexivity. Qed.
